@@ -188,7 +188,7 @@ def targeted(ctx):
         sig = f"FusionART({cls}):weight-longer-than-channel"
         try:
             est = make(spec)
-            with quiet(), time_limit(10.0), np.errstate(all="ignore"):
+            with quiet(), time_limit(90.0), np.errstate(all="ignore"):
                 est.fit(X)
                 est.predict(X[:2])
             # the channel module must hold what it alone would create from its slice of the first sample
@@ -216,7 +216,7 @@ def targeted(ctx):
         X = gen.cc(np.array([[(k % 2) * 1.0, (k // 2 % 2) * 1.0] for k in range(tau)]))
         rep = {"tau": tau, "phi": 2, "X": X.tolist()}
         try:
-            with quiet(), time_limit(10.0):
+            with quiet(), time_limit(90.0):
                 t = TopoART(FuzzyART(1.0, 2.0 ** -10, 1.0), 0.5, tau, 2)
                 t.fit(X)
                 emptied = len(t.W) == 0
